@@ -30,7 +30,11 @@ class DequeApi:
             if name == 'appendleft':
                 d.appendleft(vm.to_py(a['v'])); return R('none')
             if name == 'extend':
-                d.extend([vm.to_py(v) for v in a['vs']]); return R('none')
+                if a.get('iadd'):
+                    d += [vm.to_py(v) for v in a['vs']]          # += is its own method of Deque
+                else:
+                    d.extend([vm.to_py(v) for v in a['vs']])
+                return R('none')
             if name == 'extendleft':
                 d.extendleft([vm.to_py(v) for v in a['vs']]); return R('none')
             if name == 'pop':
@@ -232,6 +236,8 @@ def random_ops(rng, n, maxlen, lifecycle=True, ints=None):
             o = {'op': rng.choice(['append', 'appendleft']), 'a': {'v': v}}
         elif r < 0.27:
             o = {'op': rng.choice(['extend', 'extendleft']), 'a': {'vs': [rng.choice(VALS_) for _ in range(rng.randint(0, 3))]}}
+            if o['op'] == 'extend':
+                o['a']['iadd'] = rng.randrange(2)
         elif r < 0.40:
             o = {'op': rng.choice(['pop', 'popleft', 'peek', 'peekleft']), 'a': {}}
         elif r < 0.52:
